@@ -251,7 +251,8 @@ type c20Op struct {
 	Obj    int    `json:"obj"` // < 100: hand-written object; otherwise generated type id = Obj-100
 	Name   string `json:"name"`
 	Render bool   `json:"render,omitempty"`
-	Item   bool   `json:"item,omitempty"` // x['name'] instead of x.name (maps only)
+	Item   bool   `json:"item,omitempty"`      // x['name'] instead of x.name (maps only)
+	Sand   bool   `json:"sandboxed,omitempty"` // the rendered lookup happens inside a sandboxed include
 }
 
 type c20Sc struct {
@@ -322,6 +323,9 @@ func (propC20) Gen(seed uint64, ex map[string]bool) interface{} {
 				n := r.Range(3, 15)
 				for i := 0; i < n; i++ {
 					op := c20Op{Obj: pickObj(), Name: pick(r, c20Names), Render: r.P(15), Item: r.P(30)}
+					if op.Render && r.P(35) {
+						op.Sand = true
+					}
 					ops = append(ops, op)
 					seen = append(seen, op)
 				}
@@ -384,6 +388,7 @@ func (propC20) Run(scI interface{}) *Outcome {
 	hands := make([][]interface{}, nt)
 	for t := 0; t < nt; t++ {
 		engines[t] = twig.New()
+		installSandbox(engines[t])
 		hands[t] = handObjects()
 	}
 	// templates are parsed before the tasks start: concurrent parsing is C02's subject, not C20's
@@ -397,7 +402,14 @@ func (propC20) Run(scI interface{}) *Outcome {
 				if op.Item && o != nil && reflect.TypeOf(o).Kind() == reflect.Map {
 					acc = "x['" + op.Name + "']"
 				}
-				tpls[t][i], _ = engines[t].ParseTemplate("{{ " + acc + "|json_encode }}\x00{{ v|json_encode }}")
+				body := "{{ " + acc + "|json_encode }}\x00{{ v|json_encode }}"
+				if op.Sand {
+					// the same lookup performed inside a sandboxed include (attribute access is not restricted by the policy)
+					inner := fmt.Sprintf("inner_%d_%d", t, i)
+					engines[t].RegisterString(inner, body)
+					body = "{% include '" + inner + "' sandboxed %}"
+				}
+				tpls[t][i], _ = engines[t].ParseTemplate(body)
 			}
 		}
 	}
